@@ -344,4 +344,33 @@ def BoxObj.Coherent (o : BoxObj K) : Prop := ∀ r, o.cache = some r → r = o.v
 
 end
 
+section
+variable {K : Type} [Add K] [Sub K] [Mul K] [Div K] [IntCast K] [Zero K] [One K] [LT K] [LE K]
+  [DecidableLT K] [DecidableLE K]
+
+/-- `rotate` on the object, general path: the bounding supercell comes from `supersize` on the object (scaled
+    positions through the cache); the lattice translation uses `np.linalg.solve` on the visible cell. -/
+def SysObj.rotateRawC (fl : K → Int) (s : SysObj K) (U : M3 Int) : Option (Box K × List (Atom K)) :=
+  if M3.det U = 0 then none else
+  let (sa, sb, sc) := rotateSizes U
+  let b := s.box.visible
+  let orel := b.cartToRel ⟨0, 0, 0⟩
+  let nsh : V3 K := ⟨((rintK fl (0 - orel.x) : Int) : K), ((rintK fl (0 - orel.y) : Int) : K),
+                     ((rintK fl (0 - orel.z) : Int) : K)⟩
+  let shift := M3.vecMul nsh b.vects
+  let sup := ((s.supersizeC sa sb sc).2).map fun a => { a with pos := a.pos - shift }
+  let nb : Box K := ⟨newVects U b.vects, ⟨0, 0, 0⟩⟩
+  some (nb, sup.filter fun a => inHalfOpen (nb.cartToRel a.pos))
+
+/-- `System.rotate` (up to `normalize`) on the object; the result is fully periodic (`rotatePbc`). -/
+def SysObj.rotateC (fl : K → Int) (s : SysObj K) (U : M3 Int) : Except String (Box K × List (Atom K)) × Pbc :=
+  (if U = M3.one then .ok (rotateIdentity fl s.box.visible s.atoms) else
+    match s.rotateRawC fl U with
+    | none => .error "value"
+    | some (nb, kept) =>
+      if kept.length = (M3.det U).natAbs * s.atoms.length then .ok (nb, kept) else .error "filter",
+   rotatePbc U s.pbc)
+
+end
+
 end Atomman.C04
